@@ -155,7 +155,7 @@ func (d c15) Execute(c *core.Case) (res *core.Result) {
 		res.HarnessErr = err.Error()
 		return res
 	}
-	b.MustGit(nil, "fetch", "-q", "origin", rsl.Ref+":"+rsl.Ref, "refs/heads/*:refs/heads/*")
+	b.MustGit(nil, "fetch", "-q", "--update-head-ok", "origin", rsl.Ref+":"+rsl.Ref, "refs/heads/*:refs/heads/*")
 	// A's suffix reaches the forge first
 	remoteLog := append([]c15Log{}, shared...)
 	remoteRefs := map[string]bool{}
